@@ -35,6 +35,7 @@ def run(ctx):
     # "visible" is C09's notion: the parent table the gate walks must be the nearest-preceding-lower-level one (seed C02-j replaced the
     # backward search by a look at the previous layer only)
     import C09 as _c09
+    _c09.walk_tests_every_member(ctx, rule='K4')      # .. and every member of the chain, the layer itself included, is tested (seed C19-o)
     import rule as _R
     import invariants as _inv
     v = _R.View(ctx, {'V1': 'K4', 'V3': 'K4', 'V4': 'K4', 'V5': 'K4'})
@@ -43,6 +44,11 @@ def run(ctx):
     ok10, why10 = _inv.Inv(ctx).get('I10')
     ctx.inst('K4', 'parent table', ok10, why10, None, key='asefile::layer::compute_parents|K4|I10')
     render.opacity_and_mode(ctx)
+    import C06 as _c06l
+    _c06l.link_resolution(ctx, 'K5')       # a linked cel is drawn as its target: offset and opacity too (seed C02-o)
+    import C07 as _c07f
+    # "visible" starts at the layer's flag word: undefined bits in it must not wipe the VISIBLE bit (seed C02-p: from_bits(..).unwrap_or(empty()))
+    _c07f.flag_conversions(ctx, 'K4', only=('asefile::layer::parse_chunk',), floor=False)
     render.blend_table(ctx)
     render.operands_and_offset(ctx)
     render.no_extra_skips(ctx, rule='K8')
